@@ -461,7 +461,7 @@ Proof.
     destruct (finish_obs s t h c s1 e1 (conj I (conj U W)) Ht Hc Hq Hr Hfin) as [Ho [Hs Hsd]].
     apply (same_obs_tinv s); auto. congruence.
   - (* LUnregBegin *)
-    destruct (in_unreg s c); [discriminate|]. destruct (lmem c (s_cl s)); [|discriminate].
+    destruct (in_unreg s c); [discriminate|]. destruct (lmem c (s_cl s) || sd_done (s_sd s)); [|discriminate].
     unfold unreg_begin in Hst. destruct (outstanding s c); injection Hst as <- <-;
       (apply (same_obs_tinv s); auto; [apply silent_single; constructor|intros c'; apply same_tables_obs; reflexivity]).
   - (* LUnregWake *)
